@@ -13,16 +13,22 @@ import (
 // C01 / C08 / C03(FAT) — FAT volumes behave like a plain tree (FatTree.tla), stay
 // structurally sound on disk (FatDisk.tla), and never write outside their range.
 
-const fatUniverse = "  Files = {\"A\", \"b\", \"L1\", \"L2\", \"D/A\", \"D/b\"}\n  Dirs = {\"D\"}\n  InD = {\"D/A\", \"D/b\"}\n"
+const fatUniverse = "  Files = {\"A\", \"b\", \"L1\", \"L2\", \"D/A\", \"D/b\", \"E/A\", \"E/b\"}\n  Dirs = {\"D\", \"E\"}\n  InD = {\"D/A\", \"D/b\"}\n  InE = {\"E/A\", \"E/b\"}\n"
 
-func fatGenCfg(d int, neg, fill bool) []byte {
+// the exhaustive check of the model keeps the one-directory universe (state count); a second, smaller
+// instance (FatTree_MC2.cfg) has two directories and checks the directory rename
+const fatUniverseMC = "  Files = {\"A\", \"b\", \"L1\", \"L2\", \"D/A\", \"D/b\"}\n  Dirs = {\"D\"}\n  InD = {\"D/A\", \"D/b\"}\n  InE = {}\n"
+
+func fatGenCfg(d int, neg, fill bool) []byte { return fatGenCfgF(d, neg, fill, false) }
+
+func fatGenCfgF(d int, neg, fill, frag bool) []byte {
 	b := func(x bool) string {
 		if x {
 			return "TRUE"
 		}
 		return "FALSE"
 	}
-	return []byte(fmt.Sprintf("SPECIFICATION Spec\nCONSTANTS\n  CU = 4\n%s  Total = 6\n  MaxLen = 9\n  D = %d\n  Neg = %s\n  WithFill = %s\nINVARIANT Emit\nVIEW View\nCHECK_DEADLOCK FALSE\n", fatUniverse, d, b(neg), b(fill)))
+	return []byte(fmt.Sprintf("SPECIFICATION Spec\nCONSTANTS\n  CU = 4\n%s  Total = 6\n  MaxLen = 9\n  D = %d\n  Neg = %s\n  WithFill = %s\n  Frag = %s\nINVARIANT Emit\nVIEW View\nCHECK_DEADLOCK FALSE\n", fatUniverse, d, b(neg), b(fill), b(frag)))
 }
 
 type fatPlan struct {
@@ -68,6 +74,23 @@ func fatGenerate(c *core.Ctx) (*fatPlan, bool) {
 	}
 	add("walk", w)
 	c.Extra["generated_walks"] = len(w)
+	// the fragmentation family: every history of chain growth / release over two files, then fill
+	fd := 3
+	if c.Tier == "thorough" {
+		fd = 4
+	}
+	fg, err := tlc.Run(tlc.Opts{Module: "FatTree_Gen", Config: "gen.cfg", Workers: 1, Files: map[string][]byte{"gen.cfg": fatGenCfgF(fd, false, true, true)}, Timeout: 20 * time.Minute})
+	if err != nil || !fg.OK {
+		c.Broken("FatTree_Gen fragmentation family: %v", err)
+		return nil, false
+	}
+	fb, err := parseFatBehs(fg.Beh)
+	if err != nil {
+		c.Broken("%v", err)
+		return nil, false
+	}
+	add("frag", fb)
+	c.Extra["generated_fragmentation_histories"] = len(fb)
 	return pl, true
 }
 
@@ -176,7 +199,7 @@ func fatRunAll(c *core.Ctx, jobs []fatJob, module, cfgFile string, sha, raw bool
 		}
 	}
 	c.Extra["accepted_calls_per_action"] = accepted
-	for _, a := range []string{"Mkdir", "Create", "WriteAt", "Append", "Trunc", "Rename", "Remove", "Fill"} {
+	for _, a := range []string{"Mkdir", "Create", "WriteAt", "Append", "Trunc", "Rename", "RenameDir", "Remove", "Fill"} {
 		if accepted[a] == 0 {
 			c.Broken("vacuous: no %s call was accepted by the real filesystem", a)
 		}
@@ -205,6 +228,9 @@ func fatRunBatch(c *core.Ctx, jobs []fatJob, base, total int, module, cfgFile st
 			c.AddEval(1)
 			if ev["res"] == "ok" || ev["res"] == "full" {
 				accepted[str(ev, "a")]++
+				if ev["a"] == "Rename" && (ev["p"] == "D" || ev["p"] == "E") {
+					accepted["RenameDir"]++
+				}
 			}
 		}
 		key := fmt.Sprintf("%v|%v", jobs[i].cfg, jobs[i].ops)
@@ -290,7 +316,7 @@ func C01(c *core.Ctx) {
 	mcCfg := "FatTree_MC.cfg"
 	files := map[string][]byte{}
 	if c.Tier == "quick" {
-		files["mcq.cfg"] = []byte("SPECIFICATION Spec\nCONSTANTS\n  CU = 4\n" + fatUniverse + "  Total = 6\n  MaxLen = 9\n  MaxTag = 2\nINVARIANTS TypeOK P_C01_Shape P_C01_Accounting P_C01_FillFills\nPROPERTY P_C01_Release\nVIEW View\nCHECK_DEADLOCK FALSE\n")
+		files["mcq.cfg"] = []byte("SPECIFICATION Spec\nCONSTANTS\n  CU = 4\n" + fatUniverseMC + "  Total = 6\n  MaxLen = 9\n  MaxTag = 2\nINVARIANTS TypeOK P_C01_Shape P_C01_Accounting P_C01_FillFills\nPROPERTY P_C01_Release\nVIEW View\nCHECK_DEADLOCK FALSE\n")
 		mcCfg = "mcq.cfg"
 	}
 	mc, err := tlc.Run(tlc.Opts{Module: "FatTree_MC", Config: mcCfg, Workers: 8, Files: files, Timeout: 20 * time.Minute, HeapMB: 8192})
@@ -299,6 +325,13 @@ func C01(c *core.Ctx) {
 		return
 	}
 	c.States, c.Transitions = mc.Distinct, mc.Generated
+	mc2, err := tlc.Run(tlc.Opts{Module: "FatTree_MC", Config: "FatTree_MC2.cfg", Workers: 4, Timeout: 20 * time.Minute})
+	if err != nil || !mc2.OK {
+		c.Broken("FatTree_MC (two directories, directory rename): %v", err)
+		return
+	}
+	c.States += mc2.Distinct
+	c.Transitions += mc2.Generated
 	pl, ok := fatGenerate(c)
 	if !ok {
 		return
